@@ -102,13 +102,41 @@ func consumePrefix(s, prefix string) (string, bool) {
 	return s, false
 }
 
+// asciiLower lower-cases the ASCII letters of s. The numeric-string grammar
+// is case-insensitive in ASCII only; strings.ToLower would also map other
+// letters (such as U+0130) onto ASCII ones.
+func asciiLower(s string) string {
+	for i := 0; i < len(s); i++ {
+		if c := s[i]; 'A' <= c && c <= 'Z' {
+			b := []byte(s)
+			for j := i; j < len(b); j++ {
+				if c := b[j]; 'A' <= c && c <= 'Z' {
+					b[j] = c + ('a' - 'A')
+				}
+			}
+			return string(b)
+		}
+	}
+	return s
+}
+
+// isDigits reports whether s consists of ASCII digits only (it may be empty).
+func isDigits(s string) bool {
+	for i := 0; i < len(s); i++ {
+		if s[i] < '0' || s[i] > '9' {
+			return false
+		}
+	}
+	return true
+}
+
 func (d *Decimal) setString(c *Context, s string) (Condition, error) {
 	orig := s
 	s, d.Negative = consumePrefix(s, "-")
 	if !d.Negative {
 		s, _ = consumePrefix(s, "+")
 	}
-	s = strings.ToLower(s)
+	s = asciiLower(s)
 	d.Exponent = 0
 	d.Coeff.SetInt64(0)
 	// Until there are no parse errors, leave as NaN.
@@ -125,19 +153,14 @@ func (d *Decimal) setString(c *Context, s string) (Condition, error) {
 	s, consumed := consumePrefix(s, "nan")
 	if consumed {
 		isNaN = true
-	}
-	s, consumed = consumePrefix(s, "snan")
-	if consumed {
+	} else if s, consumed = consumePrefix(s, "snan"); consumed {
 		isNaN = true
 		d.Form = NaNSignaling
 	}
 	if isNaN {
-		if s != "" {
-			// We ignore these digits, but must verify them.
-			_, err := strconv.ParseUint(s, 10, 64)
-			if err != nil {
-				return 0, fmt.Errorf("parse payload: %s: %w", s, err)
-			}
+		// We ignore the payload digits, but must verify them.
+		if !isDigits(s) {
+			return 0, fmt.Errorf("parse payload: %s", s)
 		}
 		return 0, nil
 	}
@@ -155,6 +178,10 @@ func (d *Decimal) setString(c *Context, s string) (Condition, error) {
 		exp := int64(len(s) - i - 1)
 		exps = append(exps, -exp)
 		s = s[:i] + s[i+1:]
+	}
+	// Only digits may remain: BigInt.SetString would also accept a sign.
+	if s == "" || !isDigits(s) {
+		return 0, fmt.Errorf("parse mantissa: %s", s)
 	}
 	if _, ok := d.Coeff.SetString(s, 10); !ok {
 		return 0, fmt.Errorf("parse mantissa: %s", s)
